@@ -266,6 +266,13 @@ def cmdAux (a : Aux) (args : List String) : Aux × String :=
     let (r, s) := MMD.Stream.update (MMD.rbf a.sigma) a.smmd (parseFloats rest)
     ({ a with smmd := s }, match r with | none => "-" | some v => "x" ++ hexOfFloat v)
   | ["sr"] => ({ a with smmd := a.smmd.reset }, "ok")
+  -- history callback: `hn` | `ha n1,n2,…` | `hu <tag>` | `hr`  → `name:len` per tracked list
+  | "hn" :: _ => let h : History.State Nat := History.init; ({ a with hist := h }, showH h)
+  | ["ha", names] => let h := History.addVars a.hist ((names.splitOn ",").filter (· != "")); ({ a with hist := h }, showH h)
+  | ["hu", tag] => let h := History.onUpdateEnd a.hist (fun _ => tag.toNat!); ({ a with hist := h }, showH h)
+  | ["hr"] => let h := History.reset a.hist; ({ a with hist := h }, showH h)
   | _ => (a, "bad-op")
+where
+  showH (h : History.State Nat) : String := " ".intercalate (h.hist.map (fun p => s!"{p.1}:{p.2.length}"))
 
 end Frouros
